@@ -586,8 +586,8 @@ Proof.
 Qed.
 
 (* ==== all histories ==== *)
-(* calls whose refinement is proved here; the other three (MoveBefore, PushBackList, PushFrontList)
-   are tied to container/list by the correspondence check only *)
+(* calls whose refinement is proved in this file; the other three (MoveBefore, PushBackList, PushFrontList)
+   and the theorem for all twelve calls (step_refines_full, run_refines_full) are in Proofs2.v *)
 Definition covered (o : op) : bool :=
   match o with
   | PushBackList _ _ | PushFrontList _ _ | MoveBefore _ _ _ => false
